@@ -31,7 +31,9 @@ def run_pool(fn, tasks, budget_s, jobs=None):
     out = []
     ctx = mp.get_context("fork")
     timed_out = False
-    with ctx.Pool(jobs, initializer=_init) as pool:
+    # workers are recycled: the package keeps every parsed module alive (astroid's cache), a worker that compiles
+    # thousands of programs would otherwise grow by gigabytes in the thorough tiers
+    with ctx.Pool(jobs, initializer=_init, maxtasksperchild=40) as pool:
         it = pool.imap_unordered(_call, [(fn, t) for t in tasks], chunksize=4)
         for rec in it:
             out.append(rec)
